@@ -106,6 +106,10 @@ static std::string run_once(const Fn &f, const KV &c, bool via_tramp, Bytes &res
         if (err.empty() && regs[12] != regs[13]) err = "stack pointer after return is " + num(regs[12]) + ", expected " + num(regs[13]);
         static const char *RN[6] = {"rbx", "rbp", "r12", "r13", "r14", "r15"};
         for (int i = 0; i < 6 && err.empty(); ++i) if (regs[6 + i] != regs[i]) err = std::string("callee-saved register ") + RN[i] + " not restored";
+        if (err.empty() && regs[16] != 0xFFFF) err = "x87 register stack not empty on return (tag word " + num(regs[16]) + "): MMX / x87 registers used without emms";
+        if (err.empty() && (regs[18] & 0x400)) err = "direction flag set on return";
+        if (err.empty() && regs[17] != regs[14]) err = "x87 control word changed from " + num(regs[14]) + " to " + num(regs[17]);
+        if (err.empty() && (regs[19] & 0xFFC0) != (regs[15] & 0xFFC0)) err = "MXCSR control bits changed from " + num(regs[15]) + " to " + num(regs[19]);
     } else {
         ((void (*)(uint64_t, uint64_t, uint64_t))f.fn)(args[0], args[1], args[2]);
     }
@@ -121,11 +125,15 @@ static std::string check_abi(const KV &c) {
     const Fn &f = FNS[tonum(c, "fn") % NFN];
     if (!f.fn || f.shares > adp_max_shares()) return "";
     Bytes rb = tobytes(c, "regs");
-    uint64_t regs[14];
+    uint64_t regs[20];
     memset(regs, 0, sizeof regs);
     memcpy(regs, rb.data(), 48);
+    // valid x87 control word (precision / rounding vary, exceptions masked) and MXCSR (rounding, FZ, DAZ vary, exceptions masked), derived from the case
+    static const unsigned PC[4] = {0, 2, 3, 3};
+    regs[14] = 0x007F | (PC[rb[0] & 3] << 8) | (((rb[0] >> 2) & 3) << 10);
+    regs[15] = 0x1F80 | (((rb[1]) & 3) << 13) | (((rb[1] >> 2) & 1) << 15) | (((rb[1] >> 3) & 1) << 6);
     Bytes direct, tramp;
-    uint64_t dummy[14] = {0};
+    uint64_t dummy[20] = {0};
     run_once(f, c, false, direct, dummy);
     std::string e = run_once(f, c, true, tramp, regs);
     if (!e.empty()) return std::string(f.name) + ": " + e;
